@@ -30,33 +30,41 @@ Trig(tv) == IF tv.g \in {"ptr", "iface"} THEN (IF tv.nil THEN {} ELSE Trig(tv.a[
                         ELSE (IF tv.f[i].emb /\ IsNilPtr(tv.f[i].v) THEN {"nil-embedded-pointer"} ELSE {})
                              \cup (IF tv.f[i].v.g = "int" /\ tv.f[i].v.name # "" THEN {"named-scalar"} ELSE {})
                              \cup (IF tv.f[i].v.g = "custom" THEN {"custom"} ELSE {})
+                             \cup (IF tv.f[i].v.g = "time" THEN {"time-field"} ELSE {})
                              \cup Trig(tv.f[i].v) : i \in 1..Len(tv.f)}
             ELSE {}
 Trigger(tv) == LET s == Trig(tv) IN
                IF "nil-embedded-pointer" \in s THEN "nil-embedded-pointer" ELSE IF "nil-pointer-in-slice" \in s THEN "nil-pointer-in-slice"
                ELSE IF "nil-pointer-in-map" \in s THEN "nil-pointer-in-map" ELSE IF "named-scalar" \in s THEN "named-scalar"
-               ELSE IF "custom" \in s THEN "custom" ELSE "-"
+               ELSE IF "custom" \in s THEN "custom" ELSE IF "time-field" \in s THEN "time-field" ELSE "-"
 
 OptStr(o) == <<IF o.tags THEN "tags" ELSE IF o.exact THEN "exact" ELSE "low", IF o.nest THEN "nest" ELSE "flat",
                IF o.onil THEN "omitnil" ELSE "-", IF o.oempty THEN "omitempty" ELSE "-", IF o.ck # "" THEN "createkey" ELSE "-">>
 
 Judge(e) ==
-  LET pat == Pat(e.tv, e.o)
+  LET pat0 == Pat(e.tv, e.o)
+      \* entries of the top-level struct are labelled "top" (nested structs keep anon-struct / named-struct)
+      pat == IF pat0.p # "obj" THEN pat0
+             ELSE [pat0 EXCEPT !.m = [k \in 1..Len(pat0.m) |->
+                      IF pat0.m[k].d.ctx \in {"anon-struct", "named-struct"} THEN [pat0.m[k] EXCEPT !.d.ctx = "top"] ELSE pat0.m[k]]]
       oks == SelectSeq(e.outs, LAMBDA g : g.r = "ok")
       withOj == SelectSeq(oks, LAMBDA g : \E k \in 1..Len(g.as) : g.as[k] = "oj.JSON")
       ref == IF withOj # <<>> THEN withOj[1] ELSE IF oks # <<>> THEN oks[1] ELSE [as |-> <<>>, r |-> "none", tree |-> [t |-> "none"]]
+      Own(key) == IF e.tv.g = "custom" THEN [NoDescr EXCEPT !.ctx = "top-custom", !.fk = KindOf(e.tv)] ELSE OwnerOf(pat, key, 1)
       Fail(g) == IF g.r = "ok" THEN <<>> ELSE <<[i |-> c, kind |-> "fails", as |-> g.as, w |-> g.r, d |-> [NoDescr EXCEPT !.ctx = Trigger(e.tv)],
                                                  o |-> OptStr(e.o), m |-> g.m]>>
       Ref(g) == IF g.r # "ok" THEN <<>> ELSE
                 LET dv == Dev(pat, g.tree, NoDescr) IN
                 IF dv = <<>> THEN <<>> ELSE <<[i |-> c, kind |-> "not-as-documented", as |-> g.as, w |-> dv[1].w, d |-> dv[1].d, o |-> OptStr(e.o), m |-> ""]>>
+      IsDec(g) == \E k \in 1..Len(g.as) : g.as[k] \in {"alt.Decompose", "alt.Decompose/ptr", "alt.Decompose+oj.JSON", "pretty.JSON"}
       Agree(g) == IF g.r # "ok" \/ ref.r # "ok" \/ g.as = ref.as \/ Norm(g.tree, e.o) = Norm(ref.tree, e.o) THEN <<>>
+                  ELSE IF PtrRecv(e.tv) \/ (HasMarshaler(e.tv) /\ IsDec(g)) THEN <<>>    \* documented / Go-inherited differences
                   ELSE IF Match(pat, g.tree) # Match(pat, ref.tree) THEN <<>>     \* already explained by the Reference layer
                   ELSE LET df == TreeDiff(Norm(g.tree, e.o), Norm(ref.tree, e.o)) IN
-                       <<[i |-> c, kind |-> "disagrees", as |-> g.as, w |-> df.w, d |-> OwnerOf(pat, df.key, 1), o |-> OptStr(e.o), m |-> ref.as[1]]>>
-      GoC(g) == IF g.r # "ok" \/ ~e.gocompat \/ e.gj.r # "ok" \/ ~BothSupport(e.tv) \/ ~Match(pat, g.tree) \/ NilEq(g.tree, e.gj.tree) THEN <<>>
+                       <<[i |-> c, kind |-> "disagrees", as |-> g.as, w |-> df.w, d |-> Own(df.key), o |-> OptStr(e.o), m |-> ref.as[1]]>>
+      GoC(g) == IF g.r # "ok" \/ (HasMarshaler(e.tv) /\ IsDec(g)) \/ ~e.gocompat \/ e.gj.r # "ok" \/ ~BothSupport(e.tv) \/ ~Match(pat, g.tree) \/ NilEq(g.tree, e.gj.tree) THEN <<>>
                 ELSE LET df == TreeDiff(g.tree, e.gj.tree) IN
-                     <<[i |-> c, kind |-> "differs-from-encoding/json", as |-> g.as, w |-> df.w, d |-> OwnerOf(pat, df.key, 1), o |-> OptStr(e.o), m |-> ""]>>
+                     <<[i |-> c, kind |-> "differs-from-encoding/json", as |-> g.as, w |-> df.w, d |-> Own(df.key), o |-> OptStr(e.o), m |-> ""]>>
       \* encoding/json's own output should satisfy the documented pattern; if not the documentation and encoding/json part ways
       \* (recorded as model drift by the pipeline, not a verdict about ojg)
       Drift == IF e.gocompat /\ e.gj.r = "ok" /\ BothSupport(e.tv) /\ ~Match(pat, e.gj.tree)
